@@ -44,3 +44,40 @@ package renamer
 //@   site not-reserved: store symbolSlot.name requires ns == int(ast.SlotDefault) ==> r.reservedNames[value] == 0
 //@   site label-not-keyword: store symbolSlot.name requires ns == int(ast.SlotLabel) ==> js_lexer.Keywords[value] == 0
 //@   site jsx-capital: store symbolSlot.name requires ns == int(ast.SlotDefault) && slot.needsCapitalForJSX != 0 ==> !(value[0] >= 'a' && value[0] <= 'z')
+
+// C15: the reserved-name set handed to both renamers must contain the original name of every symbol
+// that is unbound or must not be renamed in every scope the collection visits, and the collection must
+// visit EVERY child scope that contains a direct eval (a direct eval can name any binding visible to
+// it). Stated per activation: the map only grows, every pinned generated symbol of this scope is in
+// it, and so is every pinned generated symbol of each direct-eval child (one unfolding of the
+// recursion; deeper levels follow by induction over the scope tree). Scope.Members is a Go map; the
+// engine has no iteration-coverage model for map ranges, so the members clause is not claimed.
+//@ import js_ast "github.com/evanw/esbuild/internal/js_ast"
+//@ spec func pinnedSymbol(symbols ast.SymbolMap, ref ast.Ref) bool =
+//@     symbols.SymbolsForSource[ref.SourceIndex][ref.InnerIndex].Kind == ast.SymbolUnbound ||
+//@     symbols.SymbolsForSource[ref.SourceIndex][ref.InnerIndex].Flags.Has(ast.MustNotBeRenamed)
+//@ spec func originalName(symbols ast.SymbolMap, ref ast.Ref) string = symbols.SymbolsForSource[ref.SourceIndex][ref.InnerIndex].OriginalName
+//@ spec func generatedReserved(scope *js_ast.Scope, symbols ast.SymbolMap, names map[string]uint32) bool =
+//@     forall i int :: 0 <= i && i < len(scope.Generated) && pinnedSymbol(symbols, scope.Generated[i]) ==> inDom(names, originalName(symbols, scope.Generated[i]))
+
+//@ func computeReservedNamesForScope
+//@   arith int
+//@   prop C15
+//@   opt transparent generatedReserved
+//@   ensures grows: forall k string :: old(inDom(names, k)) ==> inDom(names, k)
+//@   ensures generated: generatedReserved(scope, symbols, names)
+//@   ensures eval-children: scope.ContainsDirectEval ==>
+//@       (forall j int :: 0 <= j && j < len(scope.Children) && scope.Children[j].ContainsDirectEval ==> generatedReserved(scope.Children[j], symbols, names))
+//@   loop 0 invariant forall k string :: old(inDom(names, k)) ==> inDom(names, k)
+//@   loop 1 invariant forall k string :: old(inDom(names, k)) ==> inDom(names, k)
+//@   loop 1 invariant forall i int :: 0 <= i && i <= rangeindex && pinnedSymbol(symbols, scope.Generated[i]) ==> inDom(names, originalName(symbols, scope.Generated[i]))
+//@   loop 2 invariant forall k string :: old(inDom(names, k)) ==> inDom(names, k)
+//@   loop 2 invariant generatedReserved(scope, symbols, names)
+//@   loop 2 invariant forall j int :: 0 <= j && j <= rangeindex && scope.Children[j].ContainsDirectEval ==> generatedReserved(scope.Children[j], symbols, names)
+
+//@ func ComputeReservedNames
+//@   arith int
+//@   prop C15
+//@   opt transparent generatedReserved
+//@   ensures every-module-scope: forall i int :: 0 <= i && i < len(moduleScopes) ==> generatedReserved(moduleScopes[i], symbols, result)
+//@   loop 2 invariant forall i int :: 0 <= i && i <= rangeindex ==> generatedReserved(moduleScopes[i], symbols, names)
